@@ -130,6 +130,12 @@ CHECKS = {
        "Interleavings simulated from the model are replayed on three real handles in one process, each operation parked at every lock/page/callback event so that the schedule decides which goroutine steps next; then N goroutines x M operations on own native handles (same and different files, tables whose DDL spells keywords in many cases) and goroutines sharing database/sql pools (incl. result sets closed right after Query) run freely under `go build -race` BEFORE any sequential warm-up; every result is compared with the solo result and race reports are counted.",
   note=NOTE + "data races are what Go's race detector sees on the executed schedules: this half is monitored execution of the conformance harness, as DESIGN.md section 8 states; no writer is active here",
   design="6 C20, 3.13"),
+ "C05": dict(
+  technique="TLA+ spec Corrupt.tla (traversal on all small ill-formed page graphs; named corruption recipes) model-checked; every recipe applied to real files, every public operation run under a read budget in a worker process, outcomes and recipe coverage judged by TLC (TraceCorrupt.tla)",
+  text="Corrupt.tla runs the traversal (recursion budget, overflow chain walk) on ALL page graphs of 2 (thorough: 3) pages with pointers null/self/ancestor/wrong kind/beyond the file and payloads claiming more overflow pages than exist: Robust (bounded page reads, no undefined step) holds for the repaired chain walk and is refuted for the unbounded one. "
+       "It also names the corruption recipes (17 sites x adversarial classes). Every recipe is applied several times (seeded site choice) to SQLite-written files of several page sizes (incl. overflowing index entries), plus arbitrary bytes as -journal; a worker runs ~150-300 public operations per image (open, schema inspection, all scans, Rowid, ScanMin/ScanEq/IndexedSelectEq/PKSelect with keys of 8 classes, ScanRange, Select, IndexedSelect, Columns, the driver) under recover() and a deterministic page-read budget; panic, exceeded budget or a dead process is a violation with the image as replay; TLC judges outcomes and that every named recipe was exercised.",
+  note=NOTE + "'all byte strings' is not enumerable: recipe classes x generated base files x seeded site instances; hang = exceeded page-read budget (exponential-but-finite work below the budget is not flagged); allocation is bounded through the read budget only",
+  design="6 C05, 3.9", category="model_checking"),
 }
 
 NOT_YET = "check not built yet (work in progress; see DESIGN.md section 9 order of work)"
